@@ -39,7 +39,7 @@ def run(ctx):
         if not adt.startswith(P) or rec["kind"] != "Struct":
             continue
         flds = rec["variants"][0]["fields"]
-        if flds and flds[0]["name"] == "header" and flds[0]["ty"] == P + "Header":
+        if flds and flds[0]["ty"] == P + "Header":          # a PDU struct starts with the header (whatever the field is called)
             fixed[adt] = rec
     ctx.floor("R-LAYOUT", "fixed-layout PDU structs", len(fixed), 11)
     for adt, rec in sorted(fixed.items()):
@@ -60,14 +60,16 @@ def run(ctx):
         for bd, bi, si, st in sites:
             ctx.saw_fn(bd.name)
             t = K.sym_of(bd).rvalue(st["rv"])
-            hdr = strip_deep(dict(t[3])["header"])
+            hdr = strip_deep(dict(t[3]).get(rec["variants"][0]["fields"][0]["name"], ("unknown", "no header")))
             nhdr += 1
-            if not (hdr[0] == "call" and hdr[1] == P + "Header::new" and len(hdr[2]) == 4):
+            hargs = header_args(f, hdr)
+            if hargs is None:
                 ctx.ob("R-LAYOUT", "%s:header" % short(owner), False, "header is not built with Header::new", where=bd.where(bi, si),
                        detail=render(hdr))
                 continue
-            a = [render(x) for x in hdr[2]]
-            pdu_ok = pdu_c is not None and (a[1] == str(pdu_c.get("v")) or a[1].endswith("::PDU"))
+            a = [render(x) for x in hargs]
+            # the PDU's own type constant, by value (a literal, `Self::PDU`, a module constant)
+            pdu_ok = pdu_c is not None and int_value(hargs[1], f) == pdu_c.get("v")
             ctx.ob("R-LAYOUT", "%s:pdu-type" % short(owner), pdu_ok,
                    "%s::new writes its own PDU type %s into the header" % (short(owner), pdu_c.get("v") if pdu_c else "?"),
                    where=bd.where(bi, si), detail=a[1])
@@ -75,7 +77,7 @@ def run(ctx):
                 # variable length: fixed part + payload length, however the sum is spelt (checked_add / `+`, operand order,
                 # size_of / constant): the expression is read as a linear form over `len(<parameter>)` leaves
                 pay = "key_info" if "RouterKey" in adt else "providers"
-                lf = linear(hdr[2][3], f)
+                lf = linear(hargs[3], f)
                 lens = [k for k in (lf or {}) if k is not None]
                 ok = lf is not None and lf.get(None) == size and len(lens) == 1 and lf[lens[0]] == 1 and \
                     _is_len_of_param(lens[0], bd, bd.arg_count)
@@ -83,26 +85,27 @@ def run(ctx):
                        "%s::new writes size_of::<%s>() + %s.len() as the PDU length" % (short(owner), short(adt), pay),
                        where=bd.where(bi, si), detail=a[3])
             else:
-                lt = hdr[2][3]
-                ok = False
-                if int_value(lt, f) is not None:
-                    ok = int_value(lt, f) == size
-                elif lt[0] == "call" and lt[1] == adt + "::size":
-                    ok = True
+                # the struct's size however it is obtained: size_of::<Self>(), a constant, `Self::size()`, a sum of parts
+                lf = linear(hargs[3], f)
+                ok = lf is not None and size is not None and lf == {None: size}
                 ctx.ob("R-LAYOUT", "%s:length" % short(owner), ok,
                        "%s::new writes the struct's size (%s bytes) as the PDU length" % (short(owner), size),
                        where=bd.where(bi, si), detail=a[3])
         sb = f.body(adt + "::size")
         if sb is not None:
-            sz = [c for c in sb.calls() if c.name == "size_of"]
-            ctx.ob("R-LAYOUT", "%s::size" % short(adt), len(sz) == 1 and tuple(sz[0].ga) == (adt,),
-                   "%s::size() is size_of::<Self>()" % short(adt), where=sb.loc)
+            got = _const_fn_value(f, adt + "::size")
+            ctx.ob("R-LAYOUT", "%s::size" % short(adt), got is not None and got == size,
+                   "%s::size() is size_of::<Self>()" % short(adt), where=sb.loc, detail=None if got == size else got)
     ctx.floor("R-LAYOUT", "PDU constructors with a header", nhdr, 11)
     hb = f.body(P + "Header::new")
     if hb is not None:
-        vals = [render(t) for _, _, t in success_values(hb)]
-        ctx.ob("R-LAYOUT", "Header::new", vals == ["pdu::Header::Header{version: version, pdu: pdu, session: num::to_be(session), length: num::to_be(length)}"],
-               "Header::new stores (version, pdu, session BE, length BE)", where=hb.loc, detail=vals)
+        # what it returns is a Header whose fields are, in wire order, parameters 1..4, the multi-byte ones converted to
+        # network byte order (whatever the fields, parameters and the conversion are called)
+        vals = [strip_deep(t) for _, _, t in success_values(hb)]
+        sy = K.sym_of(hb)
+        okh = len(vals) == 1 and hb.arg_count == 4 and header_args(f, vals[0], literal_only=True) == tuple(strip_deep(sy.local(i)) for i in range(1, 5))
+        ctx.ob("R-LAYOUT", "Header::new", okh,
+               "Header::new stores (version, pdu, session BE, length BE)", where=hb.loc, detail=[render(v) for v in vals])
     # Error PDU
     eb = f.body(P + "Error::new")
     if eb is not None:
@@ -118,14 +121,40 @@ def run(ctx):
             lf = linear(at[3], f)
             lens = sorted((k for k in (lf or {}) if k is not None), key=render)
             ok = int_value(at[1], f) == (f.consts.get(P + "Error::PDU") or {}).get("v", 10) == 10 and \
-                strip_deep(at[2]) == K.sym_of(eb).local(2) and lf is not None and hsize is not None and \
+                strip_deep(at[2]) == strip_deep(K.sym_of(eb).local(2)) and lf is not None and hsize is not None and \
                 lf.get(None) == hsize + 2 * 4 and len(lens) == 2 and all(lf[k] == 1 for k in lens) and \
                 {True} == {_is_len_of_param(k, eb, 3) or _is_len_of_param(k, eb, 4) for k in lens} and \
                 any(_is_len_of_param(k, eb, 3) for k in lens) and any(_is_len_of_param(k, eb, 4) for k in lens)
         ctx.ob("R-LAYOUT", "Error::new:length", ok,
                "Error::new writes header + 2 length words + both embedded lengths as the PDU length, type 10", where=eb.loc, detail=detail)
-        ext = [K.arg_renders(c)[1] for c in eb.calls() if c.name == "extend_from_slice" and not eb.is_cleanup(c.bb)]
-        okx = len(ext) == 5 and "Header::new" in ext[0] and "to_be_bytes" in ext[1] and ext[2] == "pdu" and "to_be_bytes" in ext[3] and ext[4] == "text"
+        # what is appended to the octets, in order, whichever appending method is used: the header, the length of the
+        # embedded PDU (BE), the PDU, the length of the text (BE), the text
+        sy = K.sym_of(eb)
+        p_pdu, p_text = strip_deep(sy.local(3)), strip_deep(sy.local(4))
+
+        def piece(t):
+            t = _value_keeping(t)
+            while t[0] == "mvar":
+                t = _value_keeping(t[3])
+            if t == p_pdu:
+                return "pdu"
+            if t == p_text:
+                return "text"
+            if header_args(f, t) is not None:
+                return "header"
+            if t[0] == "call" and len(t[2]) == 1 and (t[3] or {}).get("name") in ("to_be_bytes", "to_be") and _NUM_FN.match((t[3] or {}).get("fn") or ""):
+                x = _value_keeping(t[2][0])
+                if x[0] == "cast":
+                    x = _value_keeping(x[1])
+                if _is_len_of_param(x, eb, 3):
+                    return "len(pdu) BE"
+                if _is_len_of_param(x, eb, 4):
+                    return "len(text) BE"
+            return render(t)[:80]
+        ext = [piece(K.arg_terms(c)[1]) for c in eb.calls()
+               if c.name in ("extend_from_slice", "extend", "put_slice", "put", "write_all", "put_u32", "extend_from_within") and
+               len(c.args) == 2 and not eb.is_cleanup(c.bb)]
+        okx = ext == ["header", "len(pdu) BE", "pdu", "len(text) BE", "text"]
         ctx.ob("R-LAYOUT", "Error::new:wire-order", okx, "Error::new emits header, pdu length (BE), pdu, text length (BE), text",
                where=eb.loc, detail=ext)
 
@@ -140,14 +169,23 @@ def run(ctx):
             continue
         nw += 1
         args = [K.arg_renders(c)[1] for c in was]
-        if owner == P + "RouterKey":
-            want = ["^self.fixed", "^self.key_info"]
-        elif owner == P + "Aspa":
-            want = ["^self.fixed", "^self.providers"]
+        want = ["^self"]
+        if owner in owner_of.values():
+            # fixed part, then the payload: the fields of the struct by their types (not their names), each sent once
+            otys = [(fl["name"], fl["ty"]) for fl in (f.adts.get(owner) or {"variants": [{"fields": []}]})["variants"][0]["fields"]]
+            fx = [k for k, v in owner_of.items() if v == owner][0]
+            want = ["fixed part", "payload"]
+            sent = []
+            for c in was:
+                t = K.arg_terms(c)[1]
+                while t[0] == "mvar":
+                    t = strip_deep(t[3])
+                ty = dict(otys).get(str(t[2])) if t[0] == "field" and (t[3] if len(t) > 3 else None) == owner and \
+                    strip_deep(t[1])[0] in ("param", "upvar") else None
+                sent.append("fixed part" if ty == fx else "payload" if ty is not None else render(t))
+            args = sent
         elif owner == P + "EndOfData":
             want = None
-        else:
-            want = ["^self"]
         ok = (want is None and len(args) >= 1) or args == want
         chk = all(call_checked(b, c.bb)[0] for c in was)
         ctx.ob("R-FLOW", "%s::write" % short(owner), ok and chk,
@@ -171,7 +209,7 @@ def run(ctx):
                 r = render(v)
                 if re.search(r"Default::default\(\)", r):
                     continue
-                ok = v[0] == "call" and v[3].get("name") in ("to_be", "from_be_bytes", "from_ne_bytes") and v[3].get("name") == "to_be"
+                ok = _be_of(v) is not None
                 npair += 1
                 ctx.ob("R-SIB", "%s.%s:stored-big-endian" % (short(adt), fld), ok,
                        "%s stores %s in network byte order" % (short(root_fn(f, bd.name)), fld), where=bd.where(bi, si), detail=r)
@@ -179,7 +217,6 @@ def run(ctx):
             for n, b in f.bodies.items():
                 if not n.startswith(P) or is_derived(b) or b.rec.get("impl_trait"):
                     continue
-                s = None
                 for bi, blk in enumerate(b.blocks):
                     for si, st in enumerate(blk["stmts"]):
                         if st["s"] != "assign" or st["rv"]["r"] != "use":
@@ -191,15 +228,10 @@ def run(ctx):
                         last = [p for p in pl["p"] if p[0] == "f"]
                         if not last or last[-1][1] != fld or last[-1][2] != adt:
                             continue
-                        # how is the copy used?
-                        dst = st["pl"]["l"]
-                        uses = []
-                        for c in b.calls():
-                            for a in c.args:
-                                apl = a.get("c") or a.get("m")
-                                if apl and apl["l"] == dst and not apl["p"]:
-                                    uses.append(c.name)
-                        ok = bool(uses) and all(u in ("from_be", "to_be") for u in uses)
+                        # how is the copy used?  Followed through plain local-to-local copies (`let raw = self.x;`); every
+                        # use must be a conversion from network byte order, and there must be one
+                        uses = raw_field_uses(b, st["pl"])
+                        ok = bool(uses) and all(u in ("from_be", "to_be", "to_ne_bytes→from_be_bytes") for u in uses)
                         npair += 1
                         ctx.ob("R-SIB", "%s.%s:read-big-endian[%s]" % (short(adt), fld, short(root_fn(f, n))), ok,
                                "%s converts %s from network byte order when reading it" % (short(root_fn(f, n)), fld),
@@ -269,7 +301,7 @@ def run(ctx):
             if vs is not None and vs.tests:
                 short_ = [v for v in sorted(vs.samples) if v < size]
                 bad = [v for v in short_ if vs.succeeds(v)]
-                if any(vs.decided(v) for v in short_) and not bad and any(vs.succeeds(v) for v in vs.samples):
+                if any(vs.decided(v) for v in short_) and not bad and vs.succeeds(size):
                     found, ok, detail = True, True, None
                 elif bad:
                     detail = {"too_short_lengths_that_can_succeed": bad[:8], "tests": detail}
@@ -291,8 +323,8 @@ def run(ctx):
                 odd = [v for v in sorted(vs.samples) if v >= size and (v - size) % 4 != 0]
                 bad = [v for v in odd if vs.succeeds(v)]
                 good = [v for v in sorted(vs.samples) if v >= size and (v - size) % 4 == 0 and vs.succeeds(v)]
-                ok = bool(odd) and not bad and bool(good)
-                detail = {"lengths_with_ragged_provider_list_that_can_succeed": bad[:8]}
+                ok = bool(odd) and not bad and size in good and len(good) > 1
+                detail = {"lengths_with_ragged_provider_list_that_can_succeed": bad[:8], "lengths_accepted": good[:4]}
             if not ok:
                 detail = [detail, K.why(f, mp, ab.name)]
         ctx.ob("R-GRD", "Aspa::read_payload:providers-multiple-of-4", ok,
@@ -327,26 +359,37 @@ def run(ctx):
         oc = outcome(b)
         sym = oc.sym
         for c in rd:
-            # the poll loop of the await is itself a cycle; take the largest cycle containing the call
+            # the poll loop of the await is itself a cycle (it closes through a `yield`); a data loop is a cycle through
+            # the call that does not need the yield
             comps = [set(x) for x in sccs if c.bb in x]
             if not comps:
                 continue
             comp = max(comps, key=len)
-            # only data loops: the component must contain more than the await's poll cycle
-            polls = [x for x in b.calls() if x.name == "poll" and x.bb in comp]
-            if len(comp) < 12:
+            yields = [bi for bi in comp if b.term(bi)["t"] == "yield"]
+            after = set(b.reachable(c.bb, removed_blocks=yields))
+            if not any(c.bb in b.succs(x) for x in after if x in comp):
                 continue
             nloops += 1
             ok = False
             detail = []
-            for bi in sorted(comp):
+            # Decided for the value 0 of the count `read` delivered: some test inside the loop takes, for a count of 0,
+            # an edge that leaves the loop — `if n == 0 { return … }`, `match n { 0 => …, n => … }`, `if n > 0 { … } else
+            # { break }`, `n < 1`, a flag local, in a new private helper, whatever the count is called.
+            vs = ValueSplit(f, b, _is_read_count)
+            taken = vs.decided(0)
+            for bi in sorted(taken):
+                if bi in comp:
+                    leaves = taken[bi] not in comp
+                    detail.append({"test": render(next(d for x, d, _ in vs.tests if x == bi))[-70:], "zero_count_leaves_loop": leaves})
+                    ok = ok or leaves
+            for bi in sorted(comp) if not detail else ():
+                # (fallback when no test of the count could be evaluated)
                 t = b.term(bi)
                 if t["t"] == "switch" and t.get("dty") != "bool":
                     # `match sock.read(..).await? { 0 => return Err(..), n => .. }`
-                    rd_ = render(strip_deep(sym.operand(t["discr"])))
-                    if re.search(r"AsyncReadExt::read\(|\$read|read⟵", rd_):
+                    if _is_read_count(strip_deep(sym.operand(t["discr"]))):
                         zero_exits = [tb for v, tb in b.switch_edges(bi) if v == 0 and tb not in comp]
-                        detail.append({"test": "match %s { 0 => … }" % rd_[:60], "leaves_loop": bool(zero_exits)})
+                        detail.append({"test": "match <count> { 0 => … }", "leaves_loop": bool(zero_exits)})
                         if zero_exits:
                             ok = True
                     continue
@@ -356,7 +399,7 @@ def run(ctx):
                 if not at or at[0] not in ("eq", "lt", "le", "gt", "ge") or at[2] is None:
                     continue
                 ra, rb = render(at[1]), render(at[2])
-                if ("0" in (ra, rb)) and any(re.search(r"AsyncReadExt::read\(|\$read|read⟵", x) for x in (ra, rb)):
+                if ("0" in (ra, rb)) and any(_is_read_count(strip_deep(x)) for x in (at[1], at[2])):
                     exits = [tb for _, tb in b.switch_edges(bi) if tb not in comp]
                     detail.append({"test": "%s %s %s" % (ra, at[0], rb), "leaves_loop": bool(exits)})
                     if exits:
@@ -423,7 +466,7 @@ def check_plain_reads(ctx, f):
             continue
         for c in b.calls():
             if c.name == "read" and (c.trait or "").endswith("AsyncReadExt") and not b.is_cleanup(c.bb):
-                plain.append((root_fn(f, n), K.alpha(K.arg_renders(c)[1], b), c.where()))
+                plain.append((root_fn(f, n), K.alpha(K.arg_renders(c)[1], b), c.where(), K.arg_terms(c)[1]))
     # every plain read sits on a cycle of its function (a cursor loop); fixed-size parts are filled by read_exact
     not_in_loop = []
     for n, b in f.bodies.items():
@@ -437,13 +480,40 @@ def check_plain_reads(ctx, f):
     ctx.ob("R-WHO", "AsyncReadExt::read-callers", not not_in_loop and len(plain) >= 2,
            "a plain `read` (which may return fewer bytes than asked for) is used only inside cursor loops; every fixed-size "
            "PDU part is filled by read_exact", detail={"outside_a_loop": not_in_loop, "plain_reads": sorted({x[0] for x in plain})})
-    for fn, buf, where in plain:
-        ok = re.match(r"^(⟵)?IndexMut::index_mut\(.+, ops::RangeFrom::RangeFrom\{start: [^{}]+\}\)$", buf) is not None or \
-            re.search(r"RangeTo\{end: cmp::min\(", buf) is not None
+    for fn, buf, where, term in plain:
+        ok = _read_buffer_is_bounded(term)
         ctx.ob("R-FLOW", "%s:read-is-bounded-by-what-is-missing" % short(fn), ok,
                "%s never asks `read` for more than the bytes still missing from the current PDU (the rest of the stream belongs "
                "to the next PDU)" % short(fn), where=where, detail=buf)
 
+
+def _is_min_call(t):
+    t = _value_keeping(t)
+    return t[0] == "call" and len(t[2]) == 2 and (t[3] or {}).get("name") == "min" and \
+        ((t[3] or {}).get("res") in ("std::cmp::min", "core::cmp::min") or ((t[3] or {}).get("trait") or "").endswith("cmp::Ord"))
+
+
+def _read_buffer_is_bounded(t):
+    """The buffer handed to a plain `read` is a sub-slice that cannot take more than what is missing: the tail `[k..]` of
+    the fixed-size target being filled, or a prefix `[..min(remaining, _)]` / `[a..min(..)]` — by whichever slicing method
+    (`[..]`, get_mut, get_unchecked_mut, split_at_mut) and whichever spelling of the minimum (`cmp::min`, `Ord::min`)."""
+    t = strip_deep(t)
+    while t[0] == "mvar":
+        t = strip_deep(t[3])
+    if t[0] == "field" and t[1][0] == "call" and (t[1][3] or {}).get("name") in ("split_at_mut", "split_at_mut_unchecked") and len(t[1][2]) == 2:
+        return str(t[2]) == "1" or _is_min_call(t[1][2][1])
+    if not (t[0] == "call" and len(t[2]) == 2 and (t[3] or {}).get("name") in ("index_mut", "get_unchecked_mut", "get_mut")):
+        return False
+    rng = strip_deep(t[2][1])
+    if rng[0] != "agg":
+        return False
+    kind = str(rng[1]).split("::")[-1]
+    flds = dict((str(k), v) for k, v in rng[3])
+    if kind == "RangeFrom":
+        return True
+    if kind in ("RangeTo", "Range") and "end" in flds:
+        return _is_min_call(flds["end"])
+    return False
 
 
 def check_payload_new(ctx, f):
@@ -466,9 +536,103 @@ def check_payload_new(ctx, f):
             seen.setdefault(c.res, []).append([K.alpha(x, b) for x in K.arg_renders(c)])
     for res, args in sorted(want.items()):
         got = seen.get(res, [])
-        ctx.ob("R-FLOW", "Payload::new→%s" % short(res), got == [args],
+        # every place where this PDU is built (one, or one per arm when the match is arranged differently) fills it so
+        ctx.ob("R-FLOW", "Payload::new→%s" % short(res), bool(got) and all(g == args for g in got),
                "Payload::new fills %s with (version, flags, %s) of the payload it was given" % (short(res), ", ".join(a.split("↓")[-1] for a in args[2:])),
                where=b.loc, detail=got)
+
+
+def _operand_local(op):
+    pl = (op or {}).get("c") or (op or {}).get("m")
+    return (pl["l"], bool(pl["p"])) if pl else (None, False)
+
+
+def raw_field_uses(b, dst_pl):
+    """How the value copied into place `dst_pl` is consumed: names of the calls it is handed to (through any chain of
+    plain local copies), `raw:<what>` for every other consumer (arithmetic, comparison, aggregate, return, store)."""
+    if dst_pl["p"] or dst_pl["l"] == 0:
+        return ["raw:stored"]
+    held = {dst_pl["l"]}
+    uses = []
+    changed = True
+    while changed:
+        changed = False
+        for blk in b.blocks:
+            for st in blk["stmts"]:
+                if st["s"] == "assign" and st["rv"]["r"] == "use":
+                    l, proj = _operand_local(st["rv"]["op"])
+                    d = st["pl"]
+                    if l in held and not proj and not d["p"] and d["l"] != 0 and d["l"] not in held:
+                        held.add(d["l"])
+                        changed = True
+    for bi, blk in enumerate(b.blocks):
+        if blk.get("cleanup"):
+            continue
+        for st in blk["stmts"]:
+            if st["s"] != "assign":
+                continue
+            rv, d = st["rv"], st["pl"]
+            ops = [rv.get("op"), rv.get("a"), rv.get("b")] + list(rv.get("ops") or [])
+            reads = [o for o in ops if o and _operand_local(o)[0] in held and not _operand_local(o)[1]]
+            if rv["r"] in ("ref", "rawptr", "discr") and rv.get("pl", {}).get("l") in held:
+                reads.append(rv["pl"])
+            if not reads:
+                continue
+            if rv["r"] == "use" and not d["p"] and d["l"] in held:
+                continue
+            uses.append("raw:%s" % ("returned" if d["l"] == 0 and rv["r"] == "use" else rv["r"]))
+        t = blk["term"]
+        if t["t"] == "call":
+            if any(_operand_local(a)[0] in held and not _operand_local(a)[1] for a in t.get("args", [])):
+                c = next((x for x in b.calls() if x.bb == bi), None)
+                nm = c.name if c is not None else "?"
+                if nm == "to_ne_bytes" and any(x.name == "from_be_bytes" for x in b.calls()):
+                    nm = "to_ne_bytes→from_be_bytes"
+                uses.append(nm)
+        elif t["t"] == "switch" and _operand_local(t.get("discr"))[0] in held:
+            uses.append("raw:switch")
+    return uses
+
+
+def _be_of(t):
+    """x if `t` is x converted to network byte order (`x.to_be()`, `T::from_be(x)` — the same swap —,
+    `T::from_ne_bytes(x.to_be_bytes())`, `T::from_be_bytes(x.to_ne_bytes())`); else None."""
+    t = strip_deep(t)
+    if t[0] != "call" or len(t[2]) != 1:
+        return None
+    name = (t[3] or {}).get("name")
+    if name in ("to_be", "from_be"):
+        return strip_deep(t[2][0])
+    inner = strip_deep(t[2][0])
+    if inner[0] == "call" and len(inner[2]) == 1 and (name, (inner[3] or {}).get("name")) in (("from_ne_bytes", "to_be_bytes"), ("from_be_bytes", "to_ne_bytes")):
+        return strip_deep(inner[2][0])
+    return None
+
+
+def header_args(f, t, literal_only=False):
+    """(version, pdu, session, length) of a header value: the arguments of `Header::new(..)`, or the fields of a `Header`
+    literal in wire order with the multi-byte ones un-converted from network byte order.  None if `t` is neither."""
+    t = strip_deep(t)
+    while t[0] == "mvar":
+        t = strip_deep(t[3])
+    if t[0] == "call" and t[1] == P + "Header::new" and len(t[2]) == 4 and not literal_only:
+        return tuple(strip_deep(x) for x in t[2])
+    rec = f.adts.get(P + "Header")
+    if t[0] == "agg" and t[1] == P + "Header" and rec:
+        vals = dict((str(k), v) for k, v in t[3])
+        out = []
+        for fl in rec["variants"][0]["fields"]:
+            v = vals.get(fl["name"])
+            if v is None:
+                return None
+            v = strip_deep(v)
+            if fl["ty"] in INT_FIELD:
+                v = _be_of(v)
+                if v is None:
+                    return None
+            out.append(v)
+        return tuple(out) if len(out) == 4 else None
+    return None
 
 
 def _ordinal(b, c):
@@ -493,17 +657,20 @@ _RES_PAYLOAD_KEEPING = {"map_err", "inspect", "inspect_err", "copied", "cloned",
 _FAIL_DISCR = {"option": 0, "result": 1, "flow": 1}        # None / Err / Break
 
 
-def int_value(t, f):
+def int_value(t, f, _depth=0):
     """Value of an integer-valued constant expression: literal, named constant of the crate, `size_of::<T>()` of a
-    primitive or of a crate type (compiler-computed layout), through casts."""
+    primitive or of a crate type (compiler-computed layout), a parameterless function of the crate returning such an
+    expression (`T::size()`), through casts."""
     t = strip_deep(t)
+    if t[0] == "call" and not t[2] and _depth < 2 and ((t[3] or {}).get("res") or "") in f.fns:
+        return _const_fn_value(f, t[3]["res"], _depth + 1)
     if t[0] == "const" and isinstance(t[1], int) and not isinstance(t[1], bool):
         return t[1]
     if t[0] == "cdef":
         v = (f.consts.get(t[1]) or {}).get("v")
         return v if isinstance(v, int) and not isinstance(v, bool) else None
     if t[0] == "cast":
-        return int_value(t[1], f)
+        return int_value(t[1], f, _depth)
     if t[0] == "call" and not t[2] and (t[3] or {}).get("name") == "size_of" and (t[3].get("res") or "").endswith("mem::size_of"):
         ga = t[3].get("ga") or ()
         if len(ga) == 1:
@@ -1061,7 +1228,7 @@ def _const_fn_value(f, res, depth=0):
     if gb is None or gb.arg_count != 0 or gb.is_coroutine or depth > 2:
         return None
     vals = [v for _, _, v in success_values(gb)]
-    return int_value(vals[0], f) if len(vals) == 1 else None
+    return int_value(vals[0], f, depth) if len(vals) == 1 else None
 
 
 class ValueSplit:
@@ -1371,6 +1538,17 @@ def _expand_private_calls(f, t, depth, limit, stack):
 # ---------------------------------------------------------------------------------------------------------------
 # `remaining -= n` in a cursor loop
 
+def _is_read_count(t):
+    """The byte count a plain `AsyncReadExt::read(..).await?` delivered (whatever it is bound to)."""
+    t = strip_deep(t)
+    if t[0] == "cast":
+        t = strip_deep(t[1])
+    if t[0] == "call" and (t[3] or {}).get("name") == "read":
+        return False            # the future itself, not what it delivers
+    r = _peel_ready_ok(t)
+    return r[0] == "call" and (r[3] or {}).get("name") == "read" and ((r[3] or {}).get("trait") or "").endswith("AsyncReadExt")
+
+
 def _peel_ready_ok(t):
     """The value a future / Result / Poll finally delivers: `Try::branch(poll(fut)↓Ready.0)↓Continue.0` → fut."""
     t = strip_deep(t)
@@ -1426,6 +1604,56 @@ def cursor_sub_cannot_wrap(b, bi):
     return "the subtrahend is the count `read` returned for a slice cut to ..min(%s, _)" % render(a)
 
 
+def length_sub_cannot_wrap(f, b, bi):
+    """The checked subtraction ending block `bi` is between expressions of the announced PDU length and constants, and
+    for every value of the length for which it would go below zero the block cannot be reached (the too-short case has
+    been turned away before, however that test is spelt).  Returns the reason or None."""
+    t = b.term(bi)
+    if t["t"] != "assert" or t.get("kind") != "Overflow:Sub" or len(t.get("ops", [])) != 2:
+        return None
+    fs = _flow_sym(b)
+    sy = fs.at(bi, "term") if fs is not None else K.sym_of(b)
+    x, y = (strip_deep(sy.operand(o)) for o in t["ops"])
+    if not any(_is_announced_length(z) for z in walk(x)) and not any(_is_announced_length(z) for z in walk(y)):
+        return None
+    vs = ValueSplit(f, b, _is_announced_length)
+    if not vs.tests:
+        return None
+    n = 0
+    for v in sorted(vs.samples):
+        ev = _Eval(f, b, _is_announced_length, v)
+        xv, yv = ev.val(x), ev.val(y)
+        if not isinstance(xv, int) or not isinstance(yv, int):
+            if bi in vs.reach(v, success_only=False):
+                return None
+            continue
+        if xv < yv:
+            n += 1
+            if bi in vs.reach(v, success_only=False):
+                return None
+    return "for every announced length that would make it wrap (%d sampled) the subtraction is unreachable" % n if n else None
+
+
+def _prefix_within_own_length(base, rng):
+    rng = strip_deep(rng)
+    if not (rng[0] == "agg" and str(rng[1]).split("::")[-1] == "RangeTo" and rng[3] and str(rng[3][0][0]) == "end"):
+        return False
+    end = _value_keeping(rng[3][0][1])
+    if not _is_min_call(end):
+        return False
+
+    def peel(x):
+        x = strip_deep(x)
+        while x[0] == "mvar":
+            x = strip_deep(x[3])
+        return x
+    for a in end[2]:
+        a = _value_keeping(a)
+        if a[0] == "call" and len(a[2]) == 1 and (a[3] or {}).get("name") == "len" and peel(a[2][0]) == peel(base):
+            return True
+    return False
+
+
 class _CursorSub:
     """What C04's site discipline sees of the context: an arithmetic-overflow site it cannot discharge by its own rules
     or its reviewed table is given to cursor_sub_cannot_wrap (every subtraction at that place must be of that form)."""
@@ -1451,6 +1679,34 @@ class _CursorSub:
             if n and all(why):
                 ok = True
                 what = "%s [C07 cursor rule: %s]" % (what, why[0])
+            elif n and not any(why):
+                # `announced_length - k` where every length below k has been turned away before (ValueSplit)
+                why = []
+                for name, b in self._f.bodies.items():
+                    if root_fn(self._f, name) != fn:
+                        continue
+                    for bi, blk in enumerate(b.blocks):
+                        tt = blk["term"]
+                        if tt["t"] == "assert" and tt.get("kind") == "Overflow:Sub" and not blk.get("cleanup") and b.where(bi) == where:
+                            why.append(length_sub_cannot_wrap(self._f, b, bi))
+                if why and all(why):
+                    ok = True
+                    what = "%s [C07 length rule: %s]" % (what, why[0])
+        if not ok and rule == "R-PANIC" and where and re.search(r"\|call:index(_mut)?\|", key):
+            # `buf[..min(n, buf.len())]` / `buf[a..min(..)]`-free form: a prefix cut at the minimum of something and the
+            # buffer's own length is within bounds
+            fn = key.split("|", 1)[0]
+            res = []
+            for name, b in self._f.bodies.items():
+                if root_fn(self._f, name) != fn:
+                    continue
+                for c in b.calls():
+                    if c.name in ("index", "index_mut") and not b.is_cleanup(c.bb) and c.where() == where and len(c.args) == 2:
+                        base, rng = K.arg_terms(c)
+                        res.append(_prefix_within_own_length(base, rng))
+            if res and all(res):
+                ok = True
+                what = "%s [C07: prefix cut at min(_, the buffer's own length)]" % what
         m = re.search(r"\|assert:(RemainderByZero|DivisionByZero)\|", key) if (not ok and rule == "R-PANIC" and where) else None
         if m:
             # `x % size_of::<u32>()`, `x / LIMIT`: the divisor is a non-zero constant expression
